@@ -1325,6 +1325,10 @@ def remove_duplicate_functions(source: str, preserve: Collection[str]) -> str:
             preserved_nodes = {replacement}
 
         for node in funcdefs - preserved_nodes:
+            if node.lineno < replacement.lineno:
+                # What calls it between the two definitions would call a function that is not
+                # defined yet
+                continue
             delete.add(node)
             renamings[node.name] = replacement.name
 
